@@ -498,7 +498,7 @@ func main() {
 	}
 
 	// ---- target files with comments at known offsets
-	var tbs [3]strings.Builder
+	var tbs [4]strings.Builder
 	var comments []cm
 	cur := 0
 	addc := func(prefix, c, suffix string) {
@@ -644,11 +644,30 @@ func main() {
 	tbs[2].WriteString("}\n")
 	addc("", "/* fam1:bb-a-zz */", "")
 
+	// file 3: a LATER VERSION OF FILE 2 (same path, other bytes): it is written over file 2 just before it is analysed,
+	// through the same runner state -- the texts must come from the bytes the file has at that time
+	cur = 3
+	tbs[3].WriteString("package target\n\n// this version of the file is longer\n")
+	addc("", "//fam1:zz-é-a", "\n")
+	tbs[3].WriteString("func h() {\n")
+	for i := 0; i < 8; i++ {
+		if i%2 == 0 {
+			familyComment()
+		} else {
+			randomComment()
+		}
+	}
+	tbs[3].WriteString("}\n")
+	addc("", "/* fam2:a-q-é */", "")
+
 	fset := token.NewFileSet()
 	var targets []*target
 	for i := range tbs {
 		src := []byte(tbs[i].String())
 		path := filepath.Join(*tmp, fmt.Sprintf("c12/f%d/target.go", i))
+		if i == 3 {
+			path = filepath.Join(*tmp, "c12/f2/target.go") // the same path as file 2
+		}
 		if err := os.MkdirAll(filepath.Dir(path), 0o755); err != nil {
 			fmt.Fprintln(os.Stderr, "target:", err)
 			os.Exit(3)
@@ -707,6 +726,11 @@ func main() {
 	for _, L := range []int{0, 15} {
 		for fi, t := range targets {
 			var reports []frep
+			// the file has these bytes when it is analysed (files 2 and 3 share a path)
+			if err := os.WriteFile(t.path, t.src, 0o644); err != nil {
+				fmt.Fprintln(os.Stderr, "target:", err)
+				os.Exit(3)
+			}
 			pmsg := func() (pmsg string) {
 				defer func() {
 					if r := recover(); r != nil {
